@@ -190,7 +190,7 @@ int main(int argc, char **argv) {
         if (IS("w")) E.w = atoi(v); else if (IS("h")) E.h = atoi(v); else if (IS("enc_mode")) E.enc_mode = atoi(v);
         else if (IS("lp")) E.lp = atoi(v); else if (IS("hl")) E.hierarchical_levels = atoi(v);
         else if (IS("watchdog")) g_watchdog = atof(v); else if (IS("quiet")) g_quiet = atoi(v); else if (IS("stream")) g_stream = v;
-        else if (IS("dirty")) g_dirty_heap = atoi(v); else if (IS("lad")) E.lad = atoi(v);
+        else if (IS("dirty")) g_dirty_heap = atoi(v); else if (IS("lad")) E.lad = atoi(v); else if (IS("scm")) E.scm_plus1 = atoi(v) + 1;
 #undef IS
     }
     setvbuf(stdout, NULL, _IOLBF, 0);
